@@ -121,6 +121,7 @@ func genScenarioC02(t *Tape, thorough bool, forced []unitKind) *Scenario {
 		a.Pacing = 1
 	}
 	a.Stream.Heartbeat = []int{0, 2, 4}[cs.N(3)]
+	a.Stream.HeartbeatAnywhere = cs.Chance(1, 2)
 	a.Stream.hbSeed = cs.U64()
 	if a.Stream.Kind == stopNone {
 		a.Stream.Kind = stopNone
